@@ -69,7 +69,8 @@ def build(sc: dict, lead: int = 0):
         if "nonlinear_constraints" in cfg:
             # constraint flavours: the trailing filter serves the objective, and the first filter of the list becomes a
             # constraint filter IN USE on the other constraint (the whole ensemble), which therefore runs before the judged one
-            cfg["objectives"] = {"weights": [1.0], "realization_filters": [trailing]}
+            # (with two filters in front the objective is explicitly mapped to NO filter instead: only a constraint uses one)
+            cfg["objectives"] = {"weights": [1.0], "realization_filters": [trailing if lead == 1 else -1]}
             cfg["realization_filters"][0] = {"method": "cvar-constraint", "options": {"sort": 0, "percentile": 1.0}}
             maps = list(cfg["nonlinear_constraints"]["realization_filters"])
             maps[0] = 0
@@ -90,7 +91,14 @@ class _WarmTable(TableEvaluator):
 
     def __call__(self, variables, context):
         self.objs, self.cons = self._clean if not self.calls else self._table
-        return super().__call__(variables, context)
+        res = super().__call__(variables, context)
+        # entries flagged inactive are not computed (zeros are returned for them; a failure stays a failure)
+        real = context.realizations
+        if context.active_objectives is not None:
+            res.objectives[~context.active_objectives[:, real].T & ~np.isnan(res.objectives)] = 0.0
+        if context.active_constraints is not None and res.constraints is not None:
+            res.constraints[~context.active_constraints[:, real].T & ~np.isnan(res.constraints)] = 0.0
+        return res
 
 
 class _PertFail(TableEvaluator):
@@ -164,6 +172,25 @@ def drive(sc: dict):
         else:
             value = (r.functions.objectives if col[0] == "obj" else r.functions.constraints)[col[1]]
     trace.append({**base, "ev": "CVaR", "via": "e2e", "outcome": outcome, "second_use": True, "unused_filters_in_front": lead,
+                  "w": nums(w) if w is not None else [], "value": num(value)})
+    # -- functions at one point, then a gradient-only request at a point one part per million away: nothing computed for the
+    #    first point (there the members rank in reverse) may serve the second
+    ev4 = _WarmTable(o, c, -objs[::-1].copy(), None if cons is None else -cons[::-1].copy())
+    ee4 = ensemble_evaluator(config, ev4)
+    outcome_of(lambda: ee4.calculate(np.ones(2), compute_functions=True, compute_gradients=False))
+    res, outcome = outcome_of(lambda: ee4.calculate(np.ones(2) * (1.0 + 1e-6), compute_functions=False, compute_gradients=True))
+    w = value = None
+    if res is not None:
+        from ropt.results import FunctionResults as _FR
+        fr = next((x for x in res if isinstance(x, _FR)), None)
+        r = res[-1]                                             # the gradient result: the weights in force for the gradient
+        rows = r.realizations.objective_weights if col[0] == "obj" else r.realizations.constraint_weights
+        w = None if rows is None else rows[col[1]]
+        if fr is None or fr.functions is None:
+            outcome = "nofunctions"
+        else:
+            value = (fr.functions.objectives if col[0] == "obj" else fr.functions.constraints)[col[1]]
+    trace.append({**base, "ev": "CVaR", "via": "e2e", "outcome": outcome, "gradient_at_a_neighbouring_point": True,
                   "w": nums(w) if w is not None else [], "value": num(value)})
     # -- one combined functions + gradient evaluation in which the perturbed evaluations of every other realization fail:
     #    a realization whose FUNCTION evaluation succeeded stays a successful member for the filter and for the reported value
